@@ -22,7 +22,7 @@ def declare(rep):
 
 
 def run_config(ctx, rep, cfg, F):
-    S.run_ops(ctx, rep, cfg, F, ["difference", "covering"], RULES, "struct", 2200)
+    S.run_ops(ctx, rep, cfg, F, ["difference", "covering"], RULES, "struct", 1000)
 
 
 def finalize(ctx, rep):
